@@ -143,6 +143,22 @@ class Runner:
         return None
 
 
+THRESHOLD_NOTES = {}
+
+
+def threshold_notes(rep, key):
+    """say which new constants steered the shape grid, and which are beyond the explorable sizes"""
+    t = THRESHOLD_NOTES.get(key)
+    if not t:
+        return
+    ths, skipped, n = t
+    if ths:
+        rep.note('threshold-directed shapes: the code has integer constants the pinned tree did not have %s; %d shapes on both sides of them were added to the grid' % (ths, n))
+    if skipped:
+        rep.note('NOT DECIDED: constants %s are beyond the sizes this tier can explore; behaviour of shapes above them is not analysed' % skipped)
+    rep.cov['new_thresholds'] = list(ths)
+
+
 def ntt_configs(tier, seed=0):
     """(cap, n, ncols, nphase, nblock, buf, dstmode, nthreads)"""
     out = []
@@ -180,6 +196,11 @@ def ntt_configs(tier, seed=0):
         for ncols, nphase, nblock, buf, dstmode in ((1, 3, 1, False, 'other'), (2, 0, 2, True, 'src'), (3, 2, 1, False, 'src'), (1, 1, 1, True, 'null'),
                                                     (2, 4, 3, False, 'other'), (5, 5, 2, True, 'other')):
             out.append((cap, n, ncols, nphase, nblock, buf, dstmode, 1))
+    # threshold-directed shapes: both sides of every integer constant the transform code has that the pinned tree did not
+    from . import thresholds
+    extra, skipped = thresholds.ntt_extra(thresholds.new_thresholds('ntt'), tier)
+    out += extra
+    THRESHOLD_NOTES['ntt'] = (thresholds.new_thresholds('ntt'), skipped, len(extra))
     # degenerate shapes
     for cap in (4,):
         out.append((cap, 0, 2, 3, 1, False, 'other', 1))
@@ -212,6 +233,10 @@ def ext_configs(tier, seed=0):
     for capN, N, Next in big:
         for ncols, nphase, nblock, buf, inplace in ((1, 3, 1, False, True), (2, 2, 1, False, True), (3, 0, 2, True, False), (1, 4, 1, True, True), (2, 1, 3, False, False)):
             out.append((capN, N, Next, ncols, nphase, nblock, buf, 1, inplace))
+    from . import thresholds
+    extra, skipped = thresholds.ext_extra(thresholds.new_thresholds('ntt'), tier)
+    out += extra
+    THRESHOLD_NOTES['ext'] = (thresholds.new_thresholds('ntt'), skipped, len(extra))
     for ncols in (2, 4, 5, 6, 7, 8, 9, 12, 13, 17):
         for capN, N, Next in ((4, 4, 8), (2, 2, 8), (4, 4, 4), (8, 4, 16)):
             for nphase in (1, 2, 3):
@@ -273,3 +298,125 @@ def record(rep, kind, results, describe, rule):
             st, msg, loc = r
             site = '%s:%s' % (front.rel(loc[0]), loc[1]) if loc and loc[0] else 'src/ntt_goldilocks.cpp'
             (rep.refute if st == 'refuted' else rep.incomplete)(tag, rule, site, msg)
+
+
+# ---------------------------------------------------------------------------------------------------------------------
+# Tables of the transform object for sizes far beyond the symbolic tier: the constructor and computeR are interpreted on
+# concrete capacities (constant propagation: no symbolic data is involved), and every table entry is compared with its
+# closed form.  A blocked / tiled / parallelised table computation that goes wrong beyond some size is seen here.
+def member_offsets(mod):
+    from . import rules, ir
+    fields = rules.class_fields(mod)
+    out = {}
+    for i, nm in fields.items():
+        off, ft = ir.field_offset(mod, ('s', '%class.' + rules.CLS), i)
+        out[nm] = off
+    return out
+
+
+def _table_worker(args):
+    cfg, cap, ns = args
+    from .poly import P, FV
+    out = []
+    try:
+        W = NTTWorld(cfg, omp=False, sroa=True)
+        this = W.construct(cap, 1, 1)
+        I = W.I
+        offs = member_offsets(W.mod)
+
+        def table(name, n):
+            c = I.mem.get((this.reg, offs[name]))
+            ptr = c[0] if c else None
+            if not isinstance(ptr, Ptr):
+                return None
+            vals = []
+            for i in range(n):
+                g = I.mem.get((ptr.reg, ptr.off + 8 * i))
+                v = g[0] if g else None
+                if isinstance(v, FV) and v.nf.isconst():
+                    v = v.nf.cval()
+                vals.append(v % P if isinstance(v, int) else v)
+            return vals
+        k = cap.bit_length() - 1
+        w = W.W(k)
+        bad = []
+        roots = table('roots', cap)
+        if roots is None:
+            bad.append('roots table not found')
+        else:
+            acc = 1
+            for i in range(cap):
+                if roots[i] != acc:
+                    bad.append('roots[%d] is not w^%d (w = W[%d])' % (i, i, k))
+                    break
+                acc = acc * w % P
+        pti = table('powTwoInv', k + 1)
+        if pti is None:
+            bad.append('powTwoInv table not found')
+        else:
+            for i in range(k + 1):
+                if pti[i] != pow(pow(2, i, P), P - 2, P):
+                    bad.append('powTwoInv[%d] is not 2^-%d' % (i, i))
+                    break
+        out.append(('ctor capacity=%d' % cap, bad))
+        try:
+            cr = W.mod.find_re(r'^NTT_Goldilocks::computeR\(')
+        except Exception:
+            cr = []
+        for N in ns:
+            bad = []
+            if not cr:
+                bad.append('computeR not found')
+            else:
+                I.call(cr[0], [this, N])
+                r = table('r', N)
+                r_ = table('r_', N)
+                ninv = pow(N, P - 2, P)
+                if r is None or r_ is None:
+                    bad.append('r / r_ tables not found')
+                else:
+                    acc = 1
+                    for i in range(N):
+                        if r[i] != acc:
+                            bad.append('r[%d] is not 7^%d' % (i, i))
+                            break
+                        if r_[i] != acc * ninv % P:
+                            bad.append('r_[%d] is not 7^%d / %d' % (i, i, N))
+                            break
+                        acc = acc * 7 % P
+            out.append(('computeR capacity=%d N=%d' % (cap, N), bad))
+    except Sink as e:
+        out.append(('tables capacity=%d' % cap, ['%s' % e]))
+    except (Incomplete, IRError, KeyError) as e:
+        out.append(('tables capacity=%d' % cap, None, str(e)))
+    return out
+
+
+def check_tables(rep, tier, rule='transform-tables'):
+    from . import thresholds
+    import multiprocessing as mp
+    caps = [1, 2, 4, 64, 1024, 4096, 8192, 16384] if tier == 'quick' else [1 << k for k in range(0, 18)]
+    for c in thresholds.new_thresholds('ntt'):
+        p2 = thresholds.pow2_at_least(c)
+        for n in (p2, 2 * p2, 4 * p2, 8 * p2):
+            if n <= (1 << 16) and n not in caps:
+                caps.append(n)
+    jobs = []
+    for cap in sorted(caps):
+        ns = sorted({1, cap, max(1, cap // 2), max(1, cap // 8)})
+        jobs.append(('avx2', cap, ns))
+    with mp.Pool(min(16, len(jobs))) as pool:
+        res = pool.map(_table_worker, jobs)
+    n = 0
+    for rs in res:
+        for r in rs:
+            n += 1
+            tag = 'tables:' + r[0]
+            if len(r) == 3:
+                rep.incomplete(tag, rule, 'src/ntt_goldilocks.hpp', r[2])
+            elif r[1]:
+                rep.refute(tag, rule, 'src/ntt_goldilocks.hpp', '; '.join(r[1][:3]))
+            else:
+                rep.ok(tag, rule, 'src/ntt_goldilocks.hpp', 'every entry equals its closed form (roots = w^i, powTwoInv = 2^-i, r = 7^i, r_ = 7^i/N)')
+    rep.cov['table_capacities'] = sorted(caps)
+    return n
